@@ -69,6 +69,11 @@ type Out struct {
 	sampled  int
 
 	recycleTicks int
+
+	// StuckFlag (set by the worker to &simsched.Stuck) and OnStuck (set per case):
+	// see Watch.
+	StuckFlag *int32
+	OnStuck   func()
 }
 
 func OpenOut() (*Out, error) {
@@ -110,8 +115,20 @@ func (o *Out) End(id any, sigs []string) {
 // and exit with status 3, which the driver reports as harness trouble.
 func (o *Out) Watch(limit time.Duration) {
 	go func() {
+		stuckFor := 0
 		for {
 			time.Sleep(250 * time.Millisecond)
+			if o.StuckFlag != nil && atomic.LoadInt32(o.StuckFlag) != 0 {
+				stuckFor++
+				if h := o.OnStuck; stuckFor >= 12 && h != nil {
+					// three seconds after the step budget ran out the run has still
+					// not returned: an endless loop in the system under test
+					h()
+					os.Exit(0)
+				}
+			} else {
+				stuckFor = 0
+			}
 			b := atomic.LoadInt64(&o.began)
 			if b != 0 && time.Since(time.Unix(0, b)) > limit {
 				o.Note("TIMEOUT")
